@@ -70,6 +70,16 @@ def build_menu():
     for alg in ("bc", "tq"):
         for inst in ([7, 6, 5, 4, 3, 2], [9, 9, 9], A7):                             # total 27, bin size 10
             pack(alg, inst, 10, "list", "PartitionAndSumsTuple")
+    # CALLER-OWNED OBJECTS: calls that name an object (obj=...) are made with ONE container per name and history - a dict / a list / a value table that the
+    # caller overwrites before each call and passes again (re-planning after an update is everyday use).  The answer must be that of a fresh container.
+    for alg in ("greedy", "roundrobin", "kk", "multifit", "ckk", "snp", "dp", "cg"):
+        kw = {"o": "diff"} if alg in ("cg", "dp") else {}
+        part(alg, W, 3, "dict", "Sums", obj="D", **kw); part(alg, W2, 3, "dict", "Sums", obj="D", **kw); part(alg, W3, 3, "dict", "PartitionAndSumsTuple", obj="D", **kw)
+    part("greedy", W, 3, "valueof", "Sums", obj="T"); part("greedy", W2, 3, "valueof", "Sums", obj="T"); part("kk", W3, 3, "valueof", "Partition", obj="T")
+    part("greedy", W, 3, "list", "Sums", obj="L"); part("greedy", W2, 3, "list", "Sums", obj="L"); part("snp", W3, 3, "list", "Sums", obj="L")
+    for alg in ("ff", "ffd", "bf", "bfd", "bc", "dec", "tt", "tq"):
+        pack(alg, Y, 40, "dict", "Sums", obj="D"); pack(alg, Y2, 40, "dict", "PartitionAndSumsTuple", obj="D"); pack(alg, W3, 40, "dict", "Sums", obj="D")
+    pack("ffd", Y, 40, "valueof", "Sums", obj="T"); pack("ffd", Y2, 40, "valueof", "Sums", obj="T"); pack("tq", Y, 40, "list", "Sums", obj="L"); pack("tq", Y2, 40, "list", "Sums", obj="L")
     return M
 
 
@@ -99,8 +109,8 @@ def digest(x):
     return hashlib.sha1(s.encode()).hexdigest()[:16], s
 
 
-def call(desc):
-    """perform one menu call; returns (ret_digest, ret_text, before_digest, after_digest)"""
+def call(desc, store=None):
+    """perform one menu call; returns (ret_digest, ret_text, before_digest, after_digest).  store: the caller's containers of this history, by name"""
     d = _drive()
     import prtpy
     vals = list(desc["vals"])
@@ -109,7 +119,22 @@ def call(desc):
     if desc["fmt"] == "valueof":
         table = dict((n, valueof(n)) for n in items)
         valueof = table.__getitem__
+    if desc["kw"].get("obj") and store is not None:
+        # the caller's own container: same object as in earlier calls of this history, contents overwritten now
+        key = (desc["kw"]["obj"], desc["fmt"])
+        if desc["fmt"] == "dict":
+            own = store.setdefault(key, {})
+            own.clear(); own.update(items); items = own
+        elif desc["fmt"] == "list":
+            own = store.setdefault(key, [])
+            own[:] = items; items = own
+        elif desc["fmt"] == "valueof":
+            own = store.setdefault(key, {"table": {}, "names": []})
+            own["table"].clear(); own["table"].update(table); own["names"][:] = items
+            table = own["table"]; items = own["names"]
+            valueof = own.setdefault("fn", table.__getitem__)      # the very same function object every time
     kw = dict(desc["kw"])
+    kw.pop("obj", None)
     # every list the call is given belongs to "the inputs": the items, the value table, and the optional per-bin weights / per-item copies of the ILP
     extra = {}
     if "weights" in kw:
@@ -148,9 +173,10 @@ def call(desc):
 def run_seq(seq):
     M = build_menu()
     evs = []
+    store = {}
     for c in seq:
-        rd, rt, b, a = call(M[c - 1])
-        evs.append({"c": c, "ret": rd, "text": rt[:160], "before": b, "after": a})
+        rd, rt, b, a = call(M[c - 1], store)
+        evs.append({"c": c, "ret": rd, "text": rt[:160], "before": b, "after": a, "obj": M[c - 1]["kw"].get("obj", "")})
     return evs
 
 
@@ -158,7 +184,7 @@ if __name__ == "__main__":
     # fresh-interpreter mode:  python -m harness.session fresh <i>
     if sys.argv[1] == "fresh":
         i = int(sys.argv[2])
-        rd, rt, b, a = call(build_menu()[i - 1])
-        print(json.dumps({"c": i, "ret": rd, "text": rt[:160], "before": b, "after": a}))
+        rd, rt, b, a = call(build_menu()[i - 1], {})
+        print(json.dumps({"c": i, "ret": rd, "text": rt[:160], "before": b, "after": a, "obj": ""}))
     elif sys.argv[1] == "size":
         print(len(build_menu()))
